@@ -216,4 +216,171 @@ theorem copyBits_src_prefix (dst : Buf) (dOff len : Nat) (p x y : Buf) (h : len 
   · simp only [hal, and_false, if_false, Nat.zero_add]
     exact copyLoop_src_prefix _ _ _ _ _ _ _ _ h
 
+/-! ### writes below `q.length` leave the rest of a longer destination alone -/
+
+/-- `r ++ x` on success -/
+def appR (x : Buf) (r : Except Err Buf) : Except Err Buf :=
+  match r with
+  | .error e => .error e
+  | .ok b => .ok (b ++ x)
+
+theorem set?_append_left {q x : Buf} {i v : Nat} (h : i < q.length) : set? (q ++ x) i v = appR x (set? q i v) := by
+  have h' : i < q.length + x.length := by omega
+  simp [set?, h, h', appR, List.set_append_left _ _ h]
+
+theorem memset0_ok_len (n : Nat) : ∀ (dst : Buf) (p : Nat) (r : Buf), memset0 dst p n = .ok r → r.length = dst.length := by
+  induction n with
+  | zero =>
+    intro dst p r h
+    simp [memset0] at h
+    rw [h]
+  | succ n ih =>
+    intro dst p r h
+    simp only [memset0, bind, Except.bind] at h
+    cases hs : set? dst p 0 with
+    | error e => simp [hs] at h
+    | ok d =>
+      simp only [hs] at h
+      have := ih d (p + 1) r h
+      have := set?_ok_inv hs
+      omega
+
+theorem memset0_append (n : Nat) : ∀ (q x : Buf) (p : Nat), p + n ≤ q.length →
+    memset0 (q ++ x) p n = appR x (memset0 q p n) := by
+  induction n with
+  | zero => intros; rfl
+  | succ n ih =>
+    intro q x p h
+    simp only [memset0, bind, Except.bind]
+    rw [set?_append_left (by omega)]
+    cases hs : set? q p 0 with
+    | error e => rfl
+    | ok d =>
+      simp only [appR]
+      exact ih d x (p + 1) (by have := set?_ok_inv hs; omega)
+
+theorem memmove_append (n : Nat) : ∀ (q x : Buf) (pd : Nat) (src : Buf) (ps : Nat), pd + n ≤ q.length →
+    memmove (q ++ x) pd src ps n = appR x (memmove q pd src ps n) := by
+  induction n with
+  | zero => intros; rfl
+  | succ n ih =>
+    intro q x pd src ps h
+    simp only [memmove, bind, Except.bind]
+    cases get? src ps with
+    | error e => rfl
+    | ok b =>
+      simp only
+      rw [set?_append_left (by omega)]
+      cases hs : set? q pd b with
+      | error e => rfl
+      | ok d =>
+        simp only [appR]
+        exact ih d x (pd + 1) src (ps + 1) (by have := set?_ok_inv hs; omega)
+
+theorem copyLoop_append (fuel : Nat) : ∀ (q x : Buf) (dOff : Nat) (src : Buf) (sOff lastBit : Nat),
+    dOff + (lastBit - sOff) ≤ 8 * q.length →
+    copyLoop fuel (q ++ x) dOff src sOff lastBit = appR x (copyLoop fuel q dOff src sOff lastBit) := by
+  induction fuel with
+  | zero =>
+    intro q x dOff src sOff lastBit _
+    simp only [copyLoop]
+    split <;> rfl
+  | succ fuel ih =>
+    intro q x dOff src sOff lastBit h
+    by_cases hl : lastBit > sOff
+    · simp only [copyLoop, hl, if_true, bind, Except.bind]
+      cases get? src (sOff / 8) with
+      | error e => rfl
+      | ok s =>
+        simp only
+        rw [get?_append_left (by omega)]
+        cases get? q (dOff / 8) with
+        | error e => rfl
+        | ok d =>
+          simp only
+          rw [set?_append_left (by omega)]
+          generalize hsz : chooseMin (8 - if sOff % 8 > dOff % 8 then sOff % 8 else dOff % 8) (lastBit - sOff) = size
+          cases hs : set? q (dOff / 8) _ with
+          | error e => rfl
+          | ok d' =>
+            simp only [appR]
+            have hsz' : size ≤ lastBit - sOff := by
+              rw [← hsz, chooseMin_eq]; exact Nat.min_le_right _ _
+            exact ih d' x (dOff + size) src (sOff + size) lastBit (by have := set?_ok_inv hs; omega)
+    · simp [copyLoop, hl, appR]
+
+theorem copyBits_append (q x : Buf) (dOff len : Nat) (src : Buf) (sOff : Nat) (h : dOff + len ≤ 8 * q.length) :
+    copyBits (q ++ x) dOff len src sOff = appR x (copyBits q dOff len src sOff) := by
+  unfold copyBits
+  by_cases hal : sOff % 8 = 0 ∧ dOff % 8 = 0
+  · simp only [hal, and_self, if_true, bind, Except.bind]
+    have hm : memmoveIfNonzero (q ++ x) (dOff / 8) src (sOff / 8) (len / 8) =
+        appR x (memmoveIfNonzero q (dOff / 8) src (sOff / 8) (len / 8)) := by
+      unfold memmoveIfNonzero
+      split
+      · exact memmove_append _ _ _ _ _ _ (by omega)
+      · rfl
+    rw [hm]
+    cases hmm : memmoveIfNonzero q (dOff / 8) src (sOff / 8) (len / 8) with
+    | error e => rfl
+    | ok d1 =>
+      simp only [appR]
+      have hl1 : d1.length = q.length := by
+        unfold memmoveIfNonzero at hmm
+        split at hmm
+        · exact (memmove_ok_inv _ _ _ _ _ _ hmm).1
+        · simp only [Except.ok.injEq] at hmm; rw [← hmm]
+      by_cases hmod : len % 8 ≠ 0
+      · simp only [hmod, ne_eq, not_false_eq_true, if_true]
+        rw [get?_append_left (by omega)]
+        cases get? d1 (dOff / 8 + len / 8) with
+        | error e => rfl
+        | ok ld =>
+          simp only
+          cases get? src (sOff / 8 + len / 8) with
+          | error e => rfl
+          | ok ls =>
+            simp only
+            rw [set?_append_left (by omega)]
+            rfl
+      · simp [hmod]
+  · simp only [hal, if_false]
+    exact copyLoop_append _ _ _ _ _ _ _ (by omega)
+
+theorem getBits_append (q x buf : Buf) (size off len : Nat) (h : (len + 7) / 8 ≤ q.length) :
+    getBits (q ++ x) buf size off len = appR x (getBits q buf size off len) := by
+  unfold getBits
+  simp only [bind, Except.bind]
+  have hsat : saturate size off len ≤ len := by rw [saturate_eq]; exact Nat.min_le_left _ _
+  cases hs : sub? ((len + 7) / 8) (saturate size off len / 8) with
+  | error e => rfl
+  | ok n =>
+    simp only
+    have hn : n = (len + 7) / 8 - saturate size off len / 8 := by
+      unfold sub? at hs
+      split at hs
+      · simp only [Except.ok.injEq] at hs; exact hs.symm
+      · cases hs
+    rw [memset0_append _ _ _ _ (by omega)]
+    cases hm : memset0 q (saturate size off len / 8) n with
+    | error e => rfl
+    | ok q1 =>
+      simp only [appR]
+      have := memset0_ok_len _ _ _ _ hm
+      exact copyBits_append q1 x 0 _ buf off (by omega)
+
+theorem getBits_ok_length {out buf : Buf} {size off len : Nat} {r : Buf} (h : getBits out buf size off len = .ok r) :
+    r.length = out.length := by
+  unfold getBits at h
+  simp only [bind, Except.bind] at h
+  cases hs : sub? ((len + 7) / 8) (saturate size off len / 8) with
+  | error e => simp [hs] at h
+  | ok n =>
+    simp only [hs] at h
+    cases hm : memset0 out (saturate size off len / 8) n with
+    | error e => simp [hm] at h
+    | ok q1 =>
+      simp only [hm] at h
+      rw [(copyBits_ok_inv h).1, memset0_ok_len _ _ _ _ hm]
+
 end NunavutVerif.Bits
